@@ -21,6 +21,12 @@ CHECKS = {
  "C10": ("exhaustive single-defect injection (10 defect kinds) at every selection-set site of every document within 1 (thorough 2) mutations of the bases, under RS/AS/FS, on the real resolver; oracle = error present and naming the offender, resolver call/argument log, siblings equal to the defect-free reference",
          "Every (document, site, defect) triple within the bound is executed; the verdict covers all container kinds reachable in the universe schema (object, interface-typed, union member, query/mutation root).",
          "Fixed universe schema; defective selections are aliased dfx.", "5.10"),
+ "C02": ("exhaustive enumeration of per-node strategy assignments (all 2^6 node subsets x 2 mixing modes), single faults, three decoy-value precedence probes and binding probes (all argument orders, RegisterField) over bounded common-feature requests on the real resolver; pairwise differential + reference executor",
+         "Pure strategies are compared pairwise and with the reference on every bounded request and single fault; every mixture of strategies over the data graph is enumerated, and precedence is decided by probes whose lower-precedence path would return decoy/sentinel values.",
+         "Typed struct fields cannot hold Resolver objects, so an assignment is honoured where the Go carrier is free; messages are not compared (they name Go types).", "5.2"),
+ "C08": ("complete enumeration of membership patterns (7 x 7 schema variants) x 5 binding modes x mutation-bounded documents with abstract-dispatch selections, executed under reflection on cold roots, against a reference executor with the standard applicability relation",
+         "All interface/union membership patterns over three object types and all binding modes are covered completely; documents within the mutation bound of 6 abstract base documents.",
+         "Reflection strategy only (RS-only graphs are outside the claim as documented); mixed registered-Resolver graphs not yet covered.", "5.8"),
 }
 
 NOT_YET = {}
